@@ -1,276 +1,352 @@
-"""Translator for C19: regenerates, from the working tree's src/pyramid/httpexceptions.py, the table-like facts
-the C19 theorems rest on.
+"""Translator for C19: regenerates the facts the C19 theorems rest on by RUNNING pyramid.httpexceptions of the tree
+under test (imported from `src_root`) and probing it over finite domains — nothing is pattern-matched from the AST,
+so any refactoring that preserves behaviour gives the same tables and any that does not changes them.
 
- * every class of the module that descends from HTTPException, with `code`, `title`, `explanation`, `empty_body`
-   and the texts of `body_template_obj` / `html_template_obj` / `plain_template_obj`, resolved along the (single
-   inheritance) base chain; `custom` = the body template is not the one defined on HTTPException itself
- * HTTPException.prepare: the guard, the list offered to `acceptable_offers`, the `match == …` ladder (per branch:
-   content type, escape function, `br`, page template, the `html_comment` expression), the `args = {…}` dict (per
-   key: `br` / `html_comment` / `escape(<expr>)` / anything else = raw), the two loops that add environ and header
-   values for custom templates, the two `substitute` calls, `_json_formatter`'s dict and `json.dumps`
- * `_no_escape`
+ * class table: every class of the module that descends from HTTPException, attributes read from the class object
+   (`code`, `title`, `explanation`, `empty_body`, the three template texts; `custom` = `cls.body_template_obj is not
+   HTTPException.body_template_obj`); `prepareShared` = every class uses HTTPException's `prepare` and `__call__`
+ * render probes (each = a complete model input + what the real code did), decided in Lean against the model:
+     class    every class x {html, json, plain}: hostile sentinel for every substitution variable the class's own
+              body template can see (detail, comment, Location header, REQUEST_METHOD)
+     ascii    one variable per render (explanation, detail, comment, html_comment, br, an environ value, a header
+              value) x 3 forms x inputs {all 128 ASCII characters in one text, each metacharacter alone, `$`-syntax,
+              character references, non-ASCII incl. astral}: the escape each variable receives, exhaustively over ASCII
+     neg      Accept headers: q(html), q(json), q(plain) in {absent, 0, 0.3, 0.5, 1}^3 plus a fixed list (absent,
+              empty, wildcards, single ranges with parameters, malformed): which form is chosen
+     guard    has_body x empty_body
+     custom   custom templates: override order base < environ < headers, header-name lower-casing, default template
+              ignores the extras, page templates used per form, `$`-syntax in values at both substitution levels,
+              missing key, ill-formed placeholder
+     wsgi     calling the exception as a WSGI application; router404 = the Router's own 404 for sentinel paths
+ * environ-key filter (not observable in the output because dotted names cannot be placeholders): values whose
+   `__str__` logs the call, over a domain of key shapes
 
-Anything that does not have the expected shape is reported in `problems` (and `translatorOk := false`) and/or
-emitted as an `unknown`/`raw` entry; the `decide`d obligations of Props/C19.lean then fail.
+Fails closed: an unexpected exception or value becomes `Observed.unknown` / `translatorOk := false`, and the decided
+obligations of Props/C19.lean fail.
 """
-import ast, os
+import io, json, os, sys
 
 summary = {}
 
+FORMS = ['text/html', 'application/json', 'text/plain']
+FORM_LEAN = {'text/html': '.html', 'application/json': '.json', 'text/plain': '.plain'}
 
-def _u(node):
-    return ast.unparse(node) if node is not None else None
-
-
-def _const_str(node):
-    return node.value if isinstance(node, ast.Constant) and isinstance(node.value, str) else None
-
-
-def _template_text(node):
-    """Template('…') -> text"""
-    if (isinstance(node, ast.Call) and isinstance(node.func, ast.Name) and node.func.id == 'Template'
-            and len(node.args) == 1 and not node.keywords):
-        return _const_str(node.args[0])
-    return None
+ALL_ASCII = ''.join(chr(i) for i in range(128))
+PRINTABLE = ''.join(chr(i) for i in range(32, 127))
+INPUTS = [ALL_ASCII, '<', '>', '&', '"', "'", '$', '$$', '${br}', '$detail', '${detail}', '${status}', '${body}', '$body', '&amp;', '&#60;',
+          '<script>alert(1)</script>', '-->', 'é', ' ', '\U0001f600', '￿', '\x7f\x80', '']
+HOSTILE = '<&>"\'$$${br}$x'
 
 
-CLASS_ATTRS = ('code', 'title', 'explanation', 'empty_body', 'body_template_obj', 'html_template_obj', 'plain_template_obj')
+def _load(src_root):
+    src_root = os.path.realpath(src_root)
+    if src_root not in [os.path.realpath(p) for p in sys.path[:1]]:
+        sys.path.insert(0, src_root)
+    from pyramid import httpexceptions as HX
+    if not os.path.realpath(HX.__file__).startswith(src_root + os.sep):
+        raise RuntimeError('pyramid.httpexceptions was imported from %s, not from %s' % (HX.__file__, src_root))
+    return HX
 
 
-def class_table(tree, problems):
-    own, bases, order = {}, {}, []
-    for n in tree.body:
-        if not isinstance(n, ast.ClassDef):
-            continue
-        attrs = {}
-        for st in n.body:
-            if isinstance(st, ast.Assign) and len(st.targets) == 1 and isinstance(st.targets[0], ast.Name):
-                k = st.targets[0].id
-                if k in CLASS_ATTRS:
-                    attrs[k] = st.value
-        own[n.name] = attrs
-        bases[n.name] = [b.id for b in n.bases if isinstance(b, ast.Name)]
-        order.append(n.name)
-    if 'HTTPException' not in own:
-        problems.append('class HTTPException not found')
-        return []
+def _q(accept):
+    from webob.acceptparse import create_accept_header
+    offers = dict(create_accept_header(accept if accept is not None else '').acceptable_offers(FORMS))
+    return [int(round(offers.get(m, 0) * 1000)) for m in FORMS]
 
-    def descends(c, seen=()):
-        if c == 'HTTPException':
-            return True
-        return any(b in own and b not in seen and descends(b, seen + (c,)) for b in bases.get(c, []))
 
-    def resolve(c, k):
-        """(value node, defining class) along the first in-module base chain"""
-        cur, hops = c, 0
-        while cur in own and hops < 50:
-            if k in own[cur]:
-                return own[cur][k], cur
-            nxt = [b for b in bases[cur] if b in own]
-            if len(nxt) > 1:
-                problems.append('class %s has several in-module bases' % cur)
-            if not nxt:
-                return None, None
-            cur, hops = nxt[0], hops + 1
-        return None, None
+def _class_record(HX, cls, name=None):
+    rec = {'name': name or cls.__name__}
+    problems = []
+    for k, typ in (('code', int), ('title', str), ('explanation', str), ('empty_body', bool)):
+        v = getattr(cls, k, None)
+        if not isinstance(v, typ) or (typ is int and isinstance(v, bool)):
+            problems.append('class %s: %s is %r' % (rec['name'], k, v))
+            v = 0 if typ is int else False if typ is bool else '$'
+        rec[k] = v
+    for k, key in (('body_template_obj', 'body'), ('html_template_obj', 'html'), ('plain_template_obj', 'plain')):
+        t = getattr(getattr(cls, k, None), 'template', None)
+        if not isinstance(t, str):
+            problems.append('class %s: %s has no template text' % (rec['name'], k))
+            t = '$'            # an invalid template
+        rec[key] = t
+    rec['custom'] = cls.body_template_obj is not HX.HTTPException.body_template_obj
+    return rec, problems
 
+
+def _environ(accept, extra=()):
+    env = {'REQUEST_METHOD': 'GET', 'SCRIPT_NAME': '', 'PATH_INFO': '/', 'QUERY_STRING': '', 'SERVER_NAME': 'localhost',
+           'SERVER_PORT': '80', 'HTTP_HOST': 'localhost:80', 'SERVER_PROTOCOL': 'HTTP/1.0'}
+    for k, v in extra:
+        env[k] = v
+    if accept is not None:
+        env['HTTP_ACCEPT'] = accept
+    return env
+
+
+def _observe(fn):
+    """run a rendering, canonicalise what happened"""
+    try:
+        ctype, body, empty = fn()
+    except KeyError as e:
+        return ('key', e.args[0]) if e.args and isinstance(e.args[0], str) else ('unknown', 'KeyError %r' % (e.args,))
+    except ValueError as e:
+        return ('invalid',) if 'Invalid placeholder' in str(e) else ('unknown', 'ValueError %s' % e)
+    except Exception as e:
+        return ('unknown', '%s: %s' % (type(e).__name__, str(e)[:80]))
+    if empty:
+        return ('untouched',) if not body else ('unknown', 'untouched response has a body')
+    try:
+        return ('ok', ctype if isinstance(ctype, str) else repr(ctype), body.decode('utf-8'))
+    except Exception as e:
+        return ('unknown', 'body: %s' % e)
+
+
+class Prober:
+    def __init__(self, HX):
+        self.HX = HX
+        self.probes = []
+        self.problems = []
+        self.adhoc = 0
+
+    def subclass(self, base, **attrs):
+        from string import Template
+        d = {}
+        for k, v in attrs.items():
+            d[k] = Template(v) if k.endswith('_template_obj') else v
+        self.adhoc += 1
+        return type('Probe%d' % self.adhoc, (base,), d)
+
+    def probe(self, kind, cls, accept, detail=None, comment=None, explanation=None, body_template=None, headers=(), environ=(),
+              has_body=False, location=None, mode='prepare', cls_name=None, q=None):
+        HX = self.HX
+        rec, pr = _class_record(HX, cls, cls_name)
+        self.problems += pr
+        kw = {}
+        if location is not None:
+            kw['location'] = location
+        if body_template is not None:
+            kw['body_template'] = body_template
+        try:
+            exc = cls(detail=detail, comment=comment, headers=[tuple(h) for h in headers] or None, **kw)
+            if explanation is not None:
+                exc.explanation = explanation
+            if has_body:
+                exc.body = b'already there'
+            hdrs = [[k, v] for k, v in exc.headers.items()]
+        except Exception as e:
+            self.problems.append('probe %s/%s: cannot construct: %s' % (kind, rec['name'], e))
+            return None
+        env = _environ(accept, environ)
+        before = exc.body if has_body else b''
+
+        def run():
+            if mode == 'prepare':
+                exc.prepare(env)
+                body = exc.body
+            else:
+                e2 = dict(env)
+                e2.update({'wsgi.version': (1, 0), 'wsgi.url_scheme': 'http', 'wsgi.input': io.BytesIO(b''), 'wsgi.errors': sys.stderr,
+                           'wsgi.multithread': False, 'wsgi.multiprocess': False, 'wsgi.run_once': False})
+                body = b''.join(exc(e2, lambda *a, **k: None))
+            if has_body:
+                return None, b'' if body == before else b'changed', True
+            if exc.empty_body:
+                return None, body, True
+            return exc.content_type, body, False
+        obs = _observe(run)
+        p = {'kind': kind, 'cls': rec, 'named': cls_name is None and cls.__module__ == HX.__name__ and getattr(HX, cls.__name__, None) is cls,
+             'detail': detail, 'comment': comment, 'explanation': explanation, 'body_template': body_template, 'has_body': has_body,
+             'headers': hdrs, 'environ': [[k, v] for k, v in environ] + ([['HTTP_ACCEPT', accept]] if accept is not None else []),
+             'q': q if q is not None else _q(accept),
+             'observed': obs, 'accept': accept}
+        self.probes.append(p)
+        return p
+
+
+def _probe_all(HX, classes):
+    P = Prober(HX)
+    E = HX.HTTPException
+    move = getattr(HX, '_HTTPMove', None)
+    # --- every class x every form, hostile sentinels
+    for cls in classes:
+        for acc in FORMS:
+            kw = {}
+            if move is not None and issubclass(cls, move):
+                kw['location'] = 'http://e.com/L' + HOSTILE
+            P.probe('class', cls, acc, detail='D' + HOSTILE, comment='C' + HOSTILE + '-->', environ=[('REQUEST_METHOD', 'M' + HOSTILE)], **kw)
+            if acc == 'text/html':
+                P.probe('class', cls, acc, detail=None, comment=None, **kw)
+    # --- which escape each variable receives, one variable per render
+    ident = dict(html_template_obj='${body}', plain_template_obj='${body}')
+    for var, tmpl in (('explanation', '${explanation}'), ('detail', '${detail}'), ('comment', '${comment}'), ('html_comment', '${html_comment}'),
+                      ('br', '${br}|${detail}'), ('env', '${REQUEST_METHOD}'), ('hdr', '${x_hdr}')):
+        cls = P.subclass(E, body_template_obj=tmpl, **ident)
+        for acc in FORMS:
+            for s in INPUTS:
+                if var == 'hdr' and s == ALL_ASCII:
+                    s = PRINTABLE
+                a = dict(detail='d', comment=None)
+                if var == 'explanation': a['explanation'] = s
+                elif var == 'detail' or var == 'br': a['detail'] = s
+                elif var in ('comment', 'html_comment'): a['comment'] = s
+                elif var == 'env': a['environ'] = [('REQUEST_METHOD', s)]
+                elif var == 'hdr': a['headers'] = [('X_Hdr', s)]
+                P.probe('ascii:' + var, cls, acc, cls_name='P_' + var, **a)
+    # --- negotiation
+    qs = [None, '0', '0.3', '0.5', '1']
+    nf = HX.HTTPNotFound
+    tiny = P.subclass(E, body_template_obj='${detail}', **ident)
+    for a in qs:
+        for b in qs:
+            for c in qs:
+                parts = [m if q == '1' and m != 'text/plain' else '%s;q=%s' % (m, q) for m, q in zip(FORMS, (a, b, c)) if q is not None]
+                for order in (parts, parts[::-1]):
+                    P.probe('neg', tiny, ', '.join(order), detail='x', cls_name='P_tiny')
+    for acc in [None, '', '*/*', 'text/*', 'application/*', 'text/html', 'application/json', 'text/plain', 'text/html;q=0', 'application/json;q=0',
+                'text/plain;q=0', 'text/html;level=1', 'application/json;q=1.5', 'text/plain;q=abc', 'TEXT/HTML', ' text/plain ', 'text/html;q=0, */*',
+                '*/*;q=0.1, text/plain', 'text/plain, text/html;q=0.5', 'text/*;q=0.5, application/json;q=0.5', 'image/png', 'garbage;;', ',', 'q=1',
+                '*/*;q=0', 'text/html; q=0.5', 'application/json;q=0.001', 'text/*, text/html;q=0.2', 'text/html;q=0.5, text/plain;q=0.5',
+                'application/*;q=0.9, text/*;q=0.8', 'text/plain;level=2, application/json']:
+        P.probe('neg', tiny, acc, detail='x', cls_name='P_tiny')
+    for acc in (None, '', '*/*', 'text/plain, text/html;q=0.5', 'application/json;q=0'):
+        P.probe('neg', nf, acc, detail='x')
+    # --- guard
+    for base_empty in (False, True):
+        cls = P.subclass(E, empty_body=base_empty)
+        for hb in (False, True):
+            if base_empty and hb:
+                continue            # an empty_body class deletes content_length; setting a body there is not the guard's business
+            P.probe('guard', cls, 'text/html', detail='x', has_body=hb, cls_name='P_guard_%s' % base_empty)
+    # --- custom templates: extras, override order, lower-casing, page templates, both substitution levels, errors
+    c_det = P.subclass(E, body_template_obj='[${detail}]')
+    P.probe('custom', c_det, 'text/html', detail='B<', cls_name='P_det')
+    P.probe('custom', c_det, 'text/html', detail='B<', environ=[('detail', 'E<')], cls_name='P_det')
+    P.probe('custom', c_det, 'text/html', detail='B<', headers=[('Detail', 'H<')], cls_name='P_det')
+    P.probe('custom', c_det, 'text/html', detail='B<', environ=[('detail', 'E<')], headers=[('Detail', 'H<'), ('DETAIL', 'H2<')], cls_name='P_det')
+    P.probe('custom', nf, 'text/html', detail='B<', environ=[('detail', 'E<'), ('br', 'X')], headers=[('Detail', 'H<')])       # default template ignores extras
+    P.probe('custom', nf, 'text/html', detail='B<', body_template='${detail}|${br}|$html_comment', comment='c>', environ=[('br', '<E>')])
+    c_hdr = P.subclass(E, body_template_obj='${x_hdr}')
+    P.probe('custom', c_hdr, 'text/plain', headers=[('X_Hdr', 'v')], cls_name='P_hdr')
+    c_hdr2 = P.subclass(E, body_template_obj='${X_Hdr}')
+    P.probe('custom', c_hdr2, 'text/plain', headers=[('X_Hdr', 'v')], cls_name='P_hdr2')
+    c_page = P.subclass(E, body_template_obj='${detail}|$$|$detail', html_template_obj='H[$status|${body}|$$|${body}]',
+                        plain_template_obj='P[${status}|$body]')
+    for acc in FORMS:
+        P.probe('custom', c_page, acc, detail='<${body}$status$$${detail}>', cls_name='P_page')
+    c_bad = P.subclass(E, html_template_obj='${body}${nope}', plain_template_obj='${body} $')
+    for acc in FORMS:
+        P.probe('custom', c_bad, acc, detail='x', cls_name='P_bad')
+    for t in ('${nope}', '${detail} $ 5', '$', '${detail', '$1', '${}', '$ſ', '${K}', '$dEtail', '$_x', '${detail}$$$detail'):
+        P.probe('custom', nf, 'text/html', detail='x', body_template=t)
+    # --- as WSGI application
+    for cls in (nf, HX.HTTPFound, HX.HTTPMethodNotAllowed, HX.HTTPNoContent):
+        for acc in FORMS:
+            kw = {'location': '/L' + HOSTILE} if cls is HX.HTTPFound else {}
+            P.probe('wsgi', cls, acc, detail='D' + HOSTILE, comment='C' + HOSTILE, environ=[('REQUEST_METHOD', 'M' + HOSTILE)], mode='wsgi', **kw)
+    return P
+
+
+def _router_probes(HX, problems):
+    """the Router's own 404 for sentinel paths: model input = HTTPNotFound(detail=path)"""
     out = []
-    for c in order:
-        if not descends(c):
-            continue
-        rec = {'name': c}
-        v, _ = resolve(c, 'code')
-        rec['code'] = v.value if isinstance(v, ast.Constant) and isinstance(v.value, int) and not isinstance(v.value, bool) else None
-        for k in ('title', 'explanation'):
-            v, _ = resolve(c, k)
-            rec[k] = _const_str(v)
-        v, _ = resolve(c, 'empty_body')
-        rec['empty_body'] = v.value if isinstance(v, ast.Constant) and isinstance(v.value, bool) else None
-        for k, key in (('body_template_obj', 'body'), ('html_template_obj', 'html'), ('plain_template_obj', 'plain')):
-            v, where = resolve(c, k)
-            rec[key] = _template_text(v)
-            if k == 'body_template_obj':
-                rec['custom'] = where != 'HTTPException'
-        bad = [k for k in ('code', 'title', 'explanation', 'empty_body', 'body', 'html', 'plain') if rec[k] is None]
-        if bad:
-            problems.append('class %s: cannot read %s' % (c, ','.join(bad)))
-            for k in bad:
-                rec[k] = 0 if k == 'code' else False if k == 'empty_body' else '$'   # '$' is an invalid template
-        out.append(rec)
+    try:
+        from pyramid.config import Configurator
+        app = Configurator().make_wsgi_app()
+        rec, pr = _class_record(HX, HX.HTTPNotFound)
+        problems += pr
+        for path in ('/', '/P' + HOSTILE, '/a/é\U0001f600/${detail}'):
+            for acc in FORMS + [None]:
+                env = _environ(acc)
+                env.update({'wsgi.version': (1, 0), 'wsgi.url_scheme': 'http', 'wsgi.input': io.BytesIO(b''), 'wsgi.errors': sys.stderr,
+                            'wsgi.multithread': False, 'wsgi.multiprocess': False, 'wsgi.run_once': False})
+                env['PATH_INFO'] = path.encode('utf-8').decode('latin-1')
+                got = {}
+
+                def run():
+                    body = b''.join(app(env, lambda s, h, e=None: got.update(h=h)))
+                    ct = [v for k, v in got['h'] if k.lower() == 'content-type']
+                    return (ct[0].split(';')[0].strip() if ct else None), body, False
+                out.append({'kind': 'router404', 'cls': rec, 'named': True, 'detail': path, 'comment': None, 'explanation': None,
+                            'body_template': None, 'has_body': False, 'headers': [], 'environ': [], 'q': _q(acc), 'observed': _observe(run),
+                            'accept': acc})
+    except Exception as e:
+        problems.append('router probes: %s: %s' % (type(e).__name__, e))
     return out
 
 
-def _find_method(tree, cls, name):
-    for n in tree.body:
-        if isinstance(n, ast.ClassDef) and n.name == cls:
-            for f in n.body:
-                if isinstance(f, ast.FunctionDef) and f.name == name:
-                    return f
-    return None
+class _Logging:
+    def __init__(self, log, key):
+        self.log, self.key = log, key
+
+    def __str__(self):
+        self.log.append(self.key)
+        return 'v'
 
 
-def _assigns(stmts):
-    """{target source: value node} of the simple assignments directly in stmts"""
-    d = {}
-    for st in stmts:
-        if isinstance(st, ast.Assign) and len(st.targets) == 1:
-            d[_u(st.targets[0])] = st.value
-    return d
-
-
-def prepare_facts(tree, problems):
-    f = _find_method(tree, 'HTTPException', 'prepare')
-    out = {'guard': 'unknown', 'offered': ['unknown'], 'match_expr': 'unknown', 'branches': [], 'args': [],
-           'custom_test': 'unknown', 'loops': [], 'body_subst': 'unknown', 'page_subst': 'unknown', 'encode': 'unknown'}
-    if f is None or len(f.body) != 1 or not isinstance(f.body[0], ast.If) or f.body[0].orelse:
-        problems.append('prepare: expected a single guarded block')
-        return out
-    top = f.body[0]
-    out['guard'] = _u(top.test)
-    body = top.body
-    top_as = _assigns(body)
-    # comment = self.comment or '' ; html_comment = ''
-    out['comment_init'] = _u(top_as.get('comment'))
-    out['html_comment_init'] = _u(top_as.get('html_comment'))
-    # offers
-    offers = None
-    for n in ast.walk(top):
-        if isinstance(n, ast.Call) and isinstance(n.func, ast.Attribute) and n.func.attr == 'acceptable_offers':
-            if len(n.args) == 1 and isinstance(n.args[0], ast.List) and all(_const_str(e) is not None for e in n.args[0].elts):
-                offers = [e.value for e in n.args[0].elts]
-    if offers is None:
-        problems.append('prepare: acceptable_offers([...]) call not found')
-    else:
-        out['offered'] = offers
-    out['acceptable_expr'] = _u([st.value for st in body if isinstance(st, ast.Assign) and _u(st.targets[0]) == 'acceptable'][-1]) \
-        if any(isinstance(st, ast.Assign) and _u(st.targets[0]) == 'acceptable' for st in body) else 'unknown'
-    out['match_expr'] = _u(top_as.get('match'))
-    # the ladder
-    ladder = [st for st in body if isinstance(st, ast.If) and isinstance(st.test, ast.Compare) and _u(st.test.left) == 'match']
-    if len(ladder) != 1:
-        problems.append('prepare: match ladder not found')
-    else:
-        cur = ladder[0]
-        while True:
-            br = _branch(cur.body, _u(cur.test))
-            out['branches'].append(br)
-            if len(cur.orelse) == 1 and isinstance(cur.orelse[0], ast.If):
-                cur = cur.orelse[0]
-            else:
-                out['branches'].append(_branch(cur.orelse, 'else'))
-                break
-    # args dict
-    a = top_as.get('args')
-    if not isinstance(a, ast.Dict):
-        problems.append('prepare: args = {...} not found')
-    else:
-        for k, v in zip(a.keys, a.values):
-            key = _const_str(k)
-            if key is None:
-                out['args'].append(('unknown', 'unknown', _u(k)))
-            elif isinstance(v, ast.Name) and v.id in ('br', 'html_comment'):
-                out['args'].append((key, v.id, ''))
-            elif isinstance(v, ast.Call) and _u(v.func) == 'escape' and len(v.args) == 1 and not v.keywords:
-                out['args'].append((key, 'escaped', _u(v.args[0])))
-            else:
-                out['args'].append((key, 'raw', _u(v)))
-    # custom-template block
-    out['body_tmpl_expr'] = _u(top_as.get('body_tmpl'))
-    cust = [st for st in body if isinstance(st, ast.If) and 'body_template_obj' in _u(st.test)]
-    if len(cust) != 1 or cust[0].orelse:
-        problems.append('prepare: custom-template block not found')
-    else:
-        out['custom_test'] = _u(cust[0].test)
-        for st in cust[0].body:
-            if not isinstance(st, ast.For):
-                out['loops'].append(('unknown', _u(st), '', '', ''))
-                continue
-            skip, assign = '', None
-            for s in st.body:
-                if isinstance(s, ast.If) and len(s.body) == 1 and isinstance(s.body[0], ast.Continue) and not s.orelse:
-                    skip = _u(s.test)
-                elif isinstance(s, ast.Assign) and assign is None:
-                    assign = s
-                else:
-                    assign = 'bad'
-            if not isinstance(assign, ast.Assign):
-                out['loops'].append(('unknown', _u(st.iter), '', '', ''))
-                continue
-            tgt, val = assign.targets[0], assign.value
-            kind = 'escaped' if (isinstance(val, ast.Call) and _u(val.func) == 'escape' and len(val.args) == 1) else 'raw'
-            out['loops'].append((_u(st.iter), _u(st.target), skip, _u(tgt), kind + ':' + (_u(val.args[0]) if kind == 'escaped' else _u(val))))
-    out['body_subst'] = _u(top_as.get('body'))
-    out['page_subst'] = _u(top_as.get('page'))
-    enc = [st for st in body if isinstance(st, ast.If) and 'isinstance(page' in _u(st.test)]
-    out['encode'] = _u(enc[0].body[0]) if len(enc) == 1 and len(enc[0].body) == 1 else 'unknown'
-    # statement order of the tail: args, body_tmpl, custom block, body, page
-    names = []
-    for st in body:
-        if isinstance(st, ast.Assign):
-            names.append(_u(st.targets[0]))
-        elif isinstance(st, ast.If):
-            names.append('if:' + ('match' if st in ladder else 'custom' if st in cust else 'encode' if st in enc else 'other'))
-        else:
-            names.append(type(st).__name__)
-    keep = {'args', 'body_tmpl', 'body', 'page', 'match', 'if:match', 'if:custom', 'if:encode', 'if:other', 'self.app_iter', 'self.body'}
-    out['order'] = [n for n in names if n in keep or not n.replace('_', '').replace('.', '').isalnum()]
-    return out
-
-
-def _branch(stmts, test):
-    a = _assigns(stmts)
-    hc = 'none'
-    for st in stmts:
-        if isinstance(st, ast.If) and _u(st.test) == 'comment' and len(st.body) == 1 and not st.orelse:
-            hc = _u(_assigns(st.body).get('html_comment'))
-        elif isinstance(st, ast.If):
-            hc = 'unknown'
-    pt = a.get('page_template')
-    return {'test': test, 'content_type': _const_str(a.get('self.content_type')) or 'unknown',
-            'charset': _u(a.get('self.charset')) if 'self.charset' in a else '',
-            'escape': _u(a.get('escape')) or 'unknown', 'br': _const_str(a.get('br')) if _const_str(a.get('br')) is not None else 'unknown',
-            'page': _u(pt) or 'unknown', 'html_comment': hc or 'unknown',
-            'json_page': _json_page(stmts)}
-
-
-def _json_page(stmts):
-    """the JsonPageTemplate class of the JSON branch: substitute returns json.dumps(self.excobj._json_formatter(...))"""
-    for st in stmts:
-        if isinstance(st, ast.ClassDef):
-            for f in st.body:
-                if isinstance(f, ast.FunctionDef) and f.name == 'substitute':
-                    return ' ; '.join(_u(s) for s in f.body)
-    return ''
+def _env_filter(HX, problems):
+    """which environ keys a custom template's args are built from: observed through values that log `str()`"""
+    keys = ['REQUEST_METHOD', 'HTTP_X_FOO', 'plain', 'wsgi.input', 'wsgi.x.y', 'wsgi.', 'wsgi', 'WSGI.X', 'a.b', '.', 'x.', '.x', 'webob.adhoc_attrs',
+            'bfg.routes.route', 'wsgi_x', 'xwsgi.y', '']
+    out = []
+    try:
+        from string import Template
+        cls = type('ProbeEnv', (HX.HTTPException,), {'body_template_obj': Template('x')})
+        for k in keys:
+            for acc in FORMS:
+                log = []
+                env = _environ(acc)
+                env[k] = _Logging(log, k)
+                exc = cls()
+                exc.prepare(env)
+                out.append((k, acc, bool(log)))
+        # with the default template nothing of the environ is looked at
+        log = []
+        env = _environ('text/html')
+        env['REQUEST_METHOD'] = _Logging(log, 'REQUEST_METHOD')
+        HX.HTTPNotFound('x').prepare(env)
+        default_reads = bool(log)
+    except Exception as e:
+        problems.append('environ filter probes: %s: %s' % (type(e).__name__, e))
+        out.append(('x.y', 'text/html', True))          # contradicts the model: fails closed
+        default_reads = True
+    return out, default_reads
 
 
 def facts(src_root):
-    path = os.path.join(src_root, 'pyramid', 'httpexceptions.py')
-    src = open(path).read()
-    tree = ast.parse(src)
     problems = []
-    out = {'classes': class_table(tree, problems)}
-    out.update(prepare_facts(tree, problems))
-    f = _find_method(tree, 'HTTPException', '_json_formatter')
-    jf = 'unknown'
-    if f is not None and len(f.body) == 1 and isinstance(f.body[0], ast.Return):
-        jf = _u(f.body[0].value)
-    out['json_formatter'] = jf
-    ne = [n for n in tree.body if isinstance(n, ast.FunctionDef) and n.name == '_no_escape']
-    out['no_escape'] = ' ; '.join(_u(s) for s in ne[0].body) if ne else 'unknown'
-    imp = 'unknown'
-    for n in tree.body:
-        if isinstance(n, ast.ImportFrom):
-            for al in n.names:
-                if (al.asname or al.name) == '_html_escape':
-                    imp = '%s.%s' % (n.module, al.name)
-    out['html_escape_import'] = imp
-    # __call__ must prepare before delegating
-    f = _find_method(tree, 'HTTPException', '__call__')
-    out['call'] = ' ; '.join(_u(s) for s in f.body) if f else 'unknown'
+    out = {'classes': [], 'probes': [], 'env_filter': [], 'prepare_shared': False, 'default_reads_environ': True}
+    try:
+        HX = _load(src_root)
+    except Exception as e:
+        out['problems'] = ['cannot import pyramid.httpexceptions from %s: %s: %s' % (src_root, type(e).__name__, e)]
+        return out
+    classes = sorted((v for n, v in vars(HX).items() if isinstance(v, type) and issubclass(v, HX.HTTPException)
+                      and v.__module__ == HX.__name__ and v.__name__ == n), key=lambda c: c.__name__)
+    for c in classes:
+        rec, pr = _class_record(HX, c)
+        out['classes'].append(rec)
+        problems += pr
+    out['prepare_shared'] = all(c.prepare is HX.HTTPException.prepare and c.__call__ is HX.HTTPException.__call__ for c in classes)
+    try:
+        P = _probe_all(HX, classes)
+        out['probes'] = P.probes
+        problems += P.problems
+    except Exception as e:
+        problems.append('probing failed: %s: %s' % (type(e).__name__, e))
+    out['probes'] += _router_probes(HX, problems)
+    out['env_filter'], out['default_reads_environ'] = _env_filter(HX, problems)
     out['problems'] = problems
+    kinds = {}
+    for p in out['probes']:
+        k = p['kind'].split(':')[0]
+        kinds[k] = kinds.get(k, 0) + 1
+    esc = {}
+    for p in out['probes']:
+        if p['kind'].startswith('ascii:') and p['detail'] != '' and p['observed'][0] == 'ok':
+            esc.setdefault((p['kind'][6:], p['observed'][1]), []).append(len(p['observed'][2]))
     summary.clear()
-    summary.update({'classes': len(out['classes']), 'offered': out['offered'], 'args': [a[:2] for a in out['args']],
-                    'branches': [(b['test'], b['content_type'], b['escape']) for b in out['branches']], 'problems': problems})
+    summary.update({'classes': len(out['classes']), 'probes': kinds, 'env_filter_keys': len(out['env_filter']), 'prepare_shared': out['prepare_shared'],
+                    'unknown_observations': sum(1 for p in out['probes'] if p['observed'][0] == 'unknown'), 'problems': problems[:5]})
     return out
 
 
@@ -315,89 +391,134 @@ def _lbool(b):
     return 'true' if b else 'false'
 
 
+def _lopt(v):
+    return 'none' if v is None else '(some %s)' % _ltext(v)
+
+
+def _lpairs(l):
+    return '[' + ', '.join('(%s, %s)' % (_ltext(k), _ltext(v)) for k, v in l) + ']'
+
+
+def _lclass(c, texts):
+    return '{ name := %s, code := %d, title := %s, explanation := %s, bodyTmpl := %s, custom := %s, emptyBody := %s, htmlTmpl := %s, plainTmpl := %s }' % (
+        _lstr(c['name']), c['code'], _ltext(c['title']), _ltext(c['explanation']), texts[c['body']], _lbool(c['custom']),
+        _lbool(c['empty_body']), texts[c['html']], texts[c['plain']])
+
+
+def _lobs(o):
+    if o[0] == 'untouched':
+        return '.untouched'
+    if o[0] == 'key':
+        return '.errKey %s' % _ltext(o[1])
+    if o[0] == 'invalid':
+        return '.errInvalid'
+    if o[0] == 'ok':
+        return '.ok %s %s' % (_ltext(o[1]), _ltext(o[2]))
+    return '.unknown %s' % _lstr(o[1] if len(o) > 1 else '?')
+
+
+STD_HEADERS = [['Content-Type', 'text/html; charset=UTF-8'], ['Content-Length', '0']]
+
+
+def _lheaders(h):
+    if h[:2] == STD_HEADERS:
+        return 'stdHeaders' + (' ++ ' + _lpairs(h[2:]) if h[2:] else '')
+    return _lpairs(h)
+
+
 def generate(src_root):
     f = facts(src_root)
     L = ['import PyramidModel.HttpExc',
-         '/-! GENERATED by extract/c19.py from src/pyramid/httpexceptions.py — do not edit. -/',
+         '/-! GENERATED by extract/c19.py by running pyramid.httpexceptions of the tree under test — do not edit. -/',
          'namespace Pyr.Gen.C19',
          'open Pyr Pyr.HttpExc', '',
-         '/-- false when the translator met a shape it does not understand -/',
+         '/-- false when a probe could not be carried out or a class attribute has an unexpected value -/',
          'def translatorOk : Bool := ' + _lbool(not f['problems']),
-         'def problems : List String := [' + ', '.join(_lstr(p) for p in f['problems']) + ']', '']
-    # distinct template texts get names, so the class table stays readable
+         'def problems : List String := [' + ', '.join(_lstr(p) for p in f['problems'][:20]) + ']',
+         '/-- every class uses HTTPException.prepare and HTTPException.__call__ -/',
+         'def prepareShared : Bool := ' + _lbool(f['prepare_shared']), '']
     texts = {}
-    for c in f['classes']:
+    recs = list(f['classes']) + [p['cls'] for p in f['probes']]
+    for c in recs:
         for k in ('body', 'html', 'plain'):
             texts.setdefault(c[k], 'tmpl%d' % len(texts))
     for t, nm in texts.items():
-        L += ['/-- %s -/' % _lstr(t).replace('-/', '- /'), 'def %s : Text := %s' % (nm, _ltext(t)), '']
+        L += ['def %s : Text := %s' % (nm, _ltext(t)), '']
     base = [c for c in f['classes'] if c['name'] == 'HTTPException']
     if base:
         L += ['/-- the templates defined on HTTPException itself -/',
               'def defaultBodyTmpl : Text := ' + texts[base[0]['body']],
               'def defaultHtmlTmpl : Text := ' + texts[base[0]['html']],
               'def defaultPlainTmpl : Text := ' + texts[base[0]['plain']], '']
-    L += ['/-- every class of the module that descends from HTTPException (attributes resolved along the base chain) -/',
-          'def classes : List ClassInfo := [']
-    for c in f['classes']:
-        L.append('  { name := %s, code := %d, title := %s, explanation := %s,\n    bodyTmpl := %s, custom := %s, emptyBody := %s, htmlTmpl := %s, plainTmpl := %s },' % (
-            _lstr(c['name']), c['code'], _ltext(c['title']), _ltext(c['explanation']), texts[c['body']],
-            _lbool(c['custom']), _lbool(c['empty_body']), texts[c['html']], texts[c['plain']]))
-    if f['classes']:
-        L[-1] = L[-1].rstrip(',')
-    L += [']', '',
-          '/-- `if <guard>:` around the whole of prepare -/',
-          'def guard : String := ' + _lstr(f['guard']),
-          '/-- the list passed to `accept.acceptable_offers` -/',
-          'def offered : List Text := [' + ', '.join(_ltext(o) for o in f['offered']) + ']',
-          'def acceptableExpr : String := ' + _lstr(f.get('acceptable_expr', 'unknown')),
-          'def matchExpr : String := ' + _lstr(f['match_expr']),
-          'def commentInit : String := ' + _lstr(f.get('comment_init')),
-          'def htmlCommentInit : String := ' + _lstr(f.get('html_comment_init')), '',
-          'structure Branch where', '  test : String', '  contentType : String', '  contentTypeT : Text', '  charset : String',
-          '  escape : String', '  br : String', '  brT : Text', '  page : String', '  htmlComment : String', '  jsonPage : String',
-          'deriving Repr, DecidableEq', '',
-          '/-- the `if match == … elif … else` ladder, in source order -/',
-          'def branches : List Branch := [']
-    for b in f['branches']:
-        L.append('  ⟨%s, %s, %s, %s, %s, %s, %s, %s, %s, %s⟩,' % (
-            _lstr(b['test']), _lstr(b['content_type']), _ltext(b['content_type']), _lstr(b['charset']), _lstr(b['escape']),
-            _lstr(b['br']), _ltext(b['br']), _lstr(b['page']), _lstr(b['html_comment']), _lstr(b['json_page'])))
-    if f['branches']:
-        L[-1] = L[-1].rstrip(',')
-    L += [']', '',
-          'inductive ArgSrc where', '  | br', '  | htmlComment', '  | escaped (expr : String)', '  | raw (expr : String)',
-          '  | unknown (src : String)', 'deriving Repr, DecidableEq', '',
-          '/-- the `args = {…}` dict literal, in source order -/',
-          'def argsTable : List (String × ArgSrc) := [']
-    for key, kind, expr in f['args']:
-        src = {'br': '.br', 'html_comment': '.htmlComment', 'escaped': '.escaped ' + _lstr(expr), 'raw': '.raw ' + _lstr(expr),
-               'unknown': '.unknown ' + _lstr(expr)}[kind]
-        L.append('  (%s, %s),' % (_lstr(key), src))
-    if f['args']:
-        L[-1] = L[-1].rstrip(',')
-    L += [']', '',
-          'def bodyTmplExpr : String := ' + _lstr(f.get('body_tmpl_expr')),
-          'def customTest : String := ' + _lstr(f['custom_test']),
-          '/-- the loops of the custom-template block: (iterable, loop target, skip condition, assigned target, value) -/',
-          'def customLoops : List (String × String × String × String × String) := [' +
-          ', '.join('(%s, %s, %s, %s, %s)' % tuple(_lstr(x) for x in l) for l in f['loops']) + ']',
-          'def bodySubst : String := ' + _lstr(f['body_subst']),
-          'def pageSubst : String := ' + _lstr(f['page_subst']),
-          'def encodeStmt : String := ' + _lstr(f['encode']),
-          'def stmtOrder : List String := [' + ', '.join(_lstr(x) for x in f.get('order', ['unknown'])) + ']',
-          'def jsonFormatter : String := ' + _lstr(f['json_formatter']),
-          'def noEscapeBody : String := ' + _lstr(f['no_escape']),
-          'def htmlEscapeImport : String := ' + _lstr(f['html_escape_import']),
-          'def callBody : String := ' + _lstr(f['call']),
+    else:
+        L += ["def defaultBodyTmpl : Text := ['$']", "def defaultHtmlTmpl : Text := ['$']", "def defaultPlainTmpl : Text := ['$']", '']
+    cnames = {}
+
+    def cref(c):
+        key = _lclass(c, texts)
+        if key not in cnames:
+            cnames[key] = 'cls%d_%s' % (len(cnames), ''.join(ch for ch in c['name'] if ch.isalnum() or ch == '_'))
+            L.extend(['def %s : ClassInfo :=\n  %s' % (cnames[key], key), ''])
+        return cnames[key]
+    table = [cref(c) for c in f['classes']]
+    probe_cls = [cref(p['cls']) for p in f['probes']]
+    L += ['/-- the environ every probe was run with (entries of the probe itself come after it and win) -/',
+          'def baseEnviron : List (Text × Text) := ' + _lpairs([[k, v] for k, v in _environ(None).items()]),
+          '/-- the headers a freshly constructed exception has -/',
+          'def stdHeaders : List (Text × Text) := ' + _lpairs(STD_HEADERS), '',
+          '/-- every class of the module that descends from HTTPException (attributes read from the class objects) -/',
+          'def classes : List ClassInfo := [' + ', '.join(table) + ']', '',
+          '/-- what the real code did -/',
+          'inductive Observed where', '  | untouched', '  | errKey (name : Text)', '  | errInvalid', '  | ok (ctype body : Text)',
+          '  | unknown (why : String)', 'deriving Repr, DecidableEq', '',
+          '/-- one probe: a complete input of the model and the observation made on the real code -/',
+          'structure RenderProbe where', '  kind : String', '  cls : ClassInfo', '  detail : Option Text', '  comment : Option Text',
+          '  explanation : Option Text', '  bodyTemplate : Option Text', '  hasBody : Bool', '  headers : List (Text × Text)',
+          '  environ : List (Text × Text)', '  qh : Nat', '  qj : Nat', '  qp : Nat', '  observed : Observed', 'deriving Repr', '',
+          'def probeCount : Nat := %d' % len(f['probes']),
+          'def probeKinds : List (String × Nat) := [' + ', '.join('(%s, %d)' % (_lstr(k), v) for k, v in sorted(summary.get('probes', {}).items())) + ']', '',
+          '/-- environ keys, the negotiated type, and whether the value under that key was stringified while the args of a custom template were built -/',
+          'def envFilterProbes : List (Text × Text × Bool) := [' + ', '.join('(%s, %s, %s)' % (_ltext(k), _ltext(a), _lbool(b)) for k, a, b in f['env_filter']) + ']',
+          '/-- with the default body template: was any environ value looked at? -/',
+          'def defaultTemplateReadsEnviron : Bool := ' + _lbool(f['default_reads_environ']),
           '', 'end Pyr.Gen.C19', '']
-    return {'PyramidModel/Gen/C19.lean': '\n'.join(L)}
+    files = {'PyramidModel/Gen/C19.lean': '\n'.join(L)}
+    # the probes, in four modules (built in parallel), each in chunks so that no single definition gets huge
+    groups = {'A': [], 'B': [], 'C': [], 'D': []}
+    for i, p in enumerate(f['probes']):
+        k = p['kind'].split(':')[0]
+        g = 'A' if k == 'class' and p['q'][0] else 'B' if k == 'class' else 'C' if k == 'ascii' else 'D'
+        groups[g].append(i)
+    for g, idx in groups.items():
+        M = ['import PyramidModel.Gen.C19',
+             '/-! GENERATED by extract/c19.py (render probes, group %s) — do not edit. -/' % g,
+             'namespace Pyr.Gen.C19', 'open Pyr Pyr.HttpExc', '']
+        names = []
+        for n in range(0, len(idx), 30):
+            nm = 'probes%s%d' % (g, n // 30)
+            names.append(nm)
+            M.append('def %s : List RenderProbe := [' % nm)
+            for i in idx[n:n + 30]:
+                p = f['probes'][i]
+                M.append('  { kind := %s, cls := %s, detail := %s, comment := %s, explanation := %s, bodyTemplate := %s, hasBody := %s,\n'
+                         '    headers := %s, environ := baseEnviron ++ %s, qh := %d, qj := %d, qp := %d,\n    observed := %s },' % (
+                             _lstr(p['kind']), probe_cls[i], _lopt(p['detail']), _lopt(p['comment']), _lopt(p['explanation']),
+                             _lopt(p['body_template']), _lbool(p['has_body']), _lheaders(p['headers']), _lpairs(p['environ']),
+                             p['q'][0], p['q'][1], p['q'][2], _lobs(p['observed'])))
+            M[-1] = M[-1].rstrip(',')
+            M += [']', '']
+        M += ['def probes%s : List (List RenderProbe) := [%s]' % (g, ', '.join(names)),
+              'def probes%sCount : Nat := %d' % (g, len(idx)), '', 'end Pyr.Gen.C19', '']
+        files['PyramidModel/Gen/C19Probes%s.lean' % g] = '\n'.join(M)
+    return files
 
 
 if __name__ == '__main__':
-    import sys, json
     root = sys.argv[1] if len(sys.argv) > 1 else '/repo/src'
     fx = facts(root)
-    print(json.dumps({k: v for k, v in fx.items() if k != 'classes'}, indent=1))
-    print(len(fx['classes']), 'classes')
-    print(generate(root)['PyramidModel/Gen/C19.lean'][:3000])
+    print(json.dumps(summary, indent=1))
+    for p in fx['probes']:
+        if p['observed'][0] == 'unknown':
+            print('UNKNOWN', p['kind'], p['cls']['name'], p['accept'], p['observed'])
+    for rel, text in generate(root).items():
+        print(rel, len(text), 'bytes')
